@@ -197,6 +197,7 @@ def _verifier_now(case, time_signed):
 
 
 _RING_FORM = ["key"]
+_BARE_RING = {}
 
 
 def _real_verify(wire, key_or_ring, request_mac=b"", multi=False, ctx=None):
@@ -214,7 +215,9 @@ def _real_verify(wire, key_or_ring, request_mac=b"", multi=False, ctx=None):
         elif form == "dict_bytes":
             # the classic keyring: name -> bare secret (what dns.tsigkeyring.from_text gives); the
             # algorithm is then whatever the TSIG record names
-            key_or_ring = {k.name: k.secret}
+            # (one dict for the whole case, as an application would keep it; the library must not alter it)
+            _BARE_RING.setdefault(k.name, k.secret)
+            key_or_ring = _BARE_RING
         else:
             key_or_ring = {k.name: k}
             if form == "dict_origin" and len(k.name) > 2:
@@ -275,6 +278,7 @@ def _scenario_single(case, res, log):
     q = _query(case)
     orig_id = (case["qid"] + 1) % 65536 if case["orig_id_differs"] else None
     other = bytes.fromhex(case["other"])
+    q_unsigned = q.to_wire()
     q.use_tsig(key, fudge=case["fudge"], original_id=orig_id, other_data=other)
     qwire = q.to_wire()
     # (1) the MAC the real code computed equals the RFC 8945 HMAC
@@ -290,6 +294,34 @@ def _scenario_single(case, res, log):
     r0 = _real_verify(qwire, key)
     if not _accepts(r0):
         raise Violation("C14:own-signature-rejected", f"request {tag}: the library does not validate a message it signed itself: {r0[1:2]}")
+    # (1b) the same message object rendered again later is signed again, at the time of that rendering
+    later = case["time"] + case["fudge"] + 100
+    _set_clock(later)
+    qwire_again = q.to_wire()
+    ok2, why2, f_again = T.verify_single(secret, kn, alg, qwire_again)
+    if not ok2:
+        raise Violation("C14:mac-differs-from-rfc", f"request rendered a second time {tag}: {why2}")
+    if f_again["time"] != later:
+        raise Violation("C14:tsig-fields", f"request {tag} rendered again at {later}: time signed is {f_again['time']} (the first rendering was at {case['time']}, fudge {case['fudge']})")
+    r_again = _real_verify(qwire_again, key)
+    if not _accepts(r_again):
+        raise Violation("C14:own-signature-rejected", f"request {tag} rendered again at {later}: the library rejects it at that time: {r_again[1:2]}")
+    _set_clock(case["time"])
+    q.to_wire()  # (restore: q.mac is the MAC of the rendering at case time again)
+    if q.mac != f["mac"]:
+        raise Violation("C14:tsig-fields", f"request {tag}: rendering the same message again at the same time gives another MAC")
+    # (1c) a peer using the same key under another algorithm: with a key ring of bare secrets the
+    # algorithm is the record's, and the ring the application handed in stays as it was
+    if _RING_FORM[0] == "dict_bytes":
+        alg2 = [a for a in ALGS if a != alg][case["flipbit"] % (len(ALGS) - 1)]
+        for a_ in (alg2, alg):
+            w2, _m2 = T.sign_single(secret, kn, a_, q_unsigned, case["time"], case["fudge"])
+            r2 = _real_verify(w2, key)
+            if not _accepts(r2):
+                raise Violation("C14:genuine-rejected", f"{tag}: with a ring of bare secrets a message signed with {a_} is rejected ({r2[1]}) after one signed with another algorithm was read with the same ring")
+        if any(not isinstance(v, bytes) for v in _BARE_RING.values()):
+            raise Violation("C14:keyring-altered", f"{tag}: reading a message replaced a bare secret in the caller's key ring by {[type(v).__name__ for v in _BARE_RING.values()]}")
+        res.probes.inc("bare_secret_ring_two_algorithms")
     # (2) the peer signs a response bound to the request MAC; the real code verifies under skew
     rw = _response_wire(case, q)
     t_signed = case["time"] + 3
@@ -931,6 +963,7 @@ def run_case(case, keep_log=False):
     res = RunResult()
     log = EventLog(keep=keep_log)
     _FIXED_ID[0] = (case["qid"] * 31 + 7) % 65536
+    _BARE_RING.clear()
     _RING_FORM[0] = case.get("ring_form", "key")
     if _RING_FORM[0] != "key":
         res.probes.inc("keyring_given_as_" + _RING_FORM[0])
